@@ -5,7 +5,7 @@ stdin: JSON list of cases [op, args...]; stdout: JSON list of observations.
   ['qn1', pat, name]               -> [0, 0/1] | [1, errcode]
   ['esc', text]                    -> [re.escape(c) for c in text]
   ['re', regex, name]              -> [0, 0/1] | [1, errcode]               re.compile(regex).match(name)
-  ['parse', value]                 -> [0, level, pattern] | [1]
+  ['parse', value]                 -> [0, level, pattern] | [1, kind, stderr text, exit code]   kind 1 malformatted, 2 unknown level
   ['chars', text]                  -> [[upper(c) for c], [isspace(c) for c]]
 errcode: 1 re.error bad character range, 2 other re.error, 5 IndexError, [9, name] anything else."""
 import io, itertools, json, re, sys, warnings, contextlib
@@ -66,11 +66,14 @@ def run_case(c):
         if op == 're':
             return [0, int(re.compile(c[1]).match(c[2]) is not None)]
         if op == 'parse':
+            err = io.StringIO()
             try:
-                with contextlib.redirect_stderr(io.StringIO()), contextlib.redirect_stdout(io.StringIO()):
+                with contextlib.redirect_stderr(err), contextlib.redirect_stdout(io.StringIO()):
                     p, m = U.parse_privacy_tuple(c[1], '--privacy')
-            except SystemExit:
-                return [1]
+            except SystemExit as e:
+                msg = err.getvalue()
+                kind = 1 if 'malformatted value' in msg else 2 if 'unknown privacy value' in msg else 0
+                return [1, kind, msg, e.code]
             return [0, {M.PrivacyClass.HIDDEN: 0, M.PrivacyClass.PRIVATE: 1, M.PrivacyClass.PUBLIC: 2}[p], m]
         if op == 'chars':
             return [[ch.upper() for ch in c[1]], [int(ch.isspace()) for ch in c[1]]]
